@@ -62,6 +62,7 @@ PROPS["C14"] = {
         Leg("random", "c14", "^TestRandom$", checks=(200000, 6000000), shards=(2, 16), tests=["random"]),
         Leg("huge", "c14", "^TestHuge$", checks=(3000, 60000), shards=(1, 4), tests=["huge"]),
         Leg("parallel-race", "c14", "^TestParallel$", engine="sched", race=True, checks=(500, 8000), shards=(2, 8), tests=["parallel"], replay_attempts=5),
+        Leg("first-use-race", "c14", "^TestParallel$", engine="sched", race=True, checks=(2, 2), shards=(12, 64), env={"VERIF_FIRST_USE": "1"}, tests=["parallel"], replay_attempts=5),
         Leg("grid-386", "c14", "^TestGrid$", engine="enumerate", rapid=False, goarch="386", shards=(1, 1), tests=["grid"]),
         Leg("random-386", "c14", "^TestRandom$", goarch="386", checks=(50000, 1000000), shards=(1, 8), tests=["random"]),
         Leg("fuzz-bits", "c14", "", engine="native-fuzz", fuzz="FuzzBits", fuzztime=120, tiers=("thorough",)),
@@ -87,8 +88,10 @@ PROPS["C07"] = {
         Leg("sweep", "c07", "^TestSweep$", engine="enumerate", rapid=False, shards=(8, 16), tests=["sweep"]),
         Leg("frame", "c07", "^TestFrame$", checks=(20000, 200000), shards=(2, 16), tests=["frame"]),
         Leg("stream", "c07", "^TestStream$", checks=(3000, 60000), shards=(2, 16), tests=["stream"]),
+        Leg("quiet-line", "c07", "^TestQuietLine$", engine="sched", checks=(1, 3), shards=(3, 6), tests=["quiet-line"]),
         Leg("parallel", "c07", "^TestParallel$", engine="sched", checks=(800, 15000), shards=(2, 16), tests=["parallel"], replay_attempts=5),
         Leg("parallel-race", "c07", "^TestParallel$", engine="sched", race=True, checks=(150, 3000), shards=(2, 8), tests=["parallel"], replay_attempts=5),
+        Leg("first-use-race", "c07", "^TestParallel$", engine="sched", race=True, checks=(2, 2), shards=(12, 64), env={"VERIF_FIRST_USE": "1"}, tests=["parallel"], replay_attempts=5),
         Leg("frame-no-tzdata", "c07", "^TestFrame$", wrap="no-tzdata", env={"ZONEINFO": ""}, checks=(4000, 40000), shards=(1, 8), tests=["frame"]),
         Leg("fuzz-typed-frame", "c07", "", engine="native-fuzz", fuzz="FuzzTypedFrame", fuzztime=150, tiers=("thorough",)),
         Leg("fuzz-raw-stream", "c07", "", engine="native-fuzz", fuzz="FuzzRawStream", fuzztime=120, tiers=("thorough",)),
@@ -114,6 +117,9 @@ PROPS["C01"] = {
         Leg("stream", "c01", "^TestStream$", checks=(3000, 100000), shards=(2, 16), tests=["stream"]),
         Leg("sequence", "c01", "^TestSequence$", checks=(10000, 150000), shards=(2, 16), tests=["sequence"]),
         Leg("buffer", "c01", "^TestBuffer$", checks=(30000, 400000), shards=(2, 16), tests=["buffer"]),
+        Leg("parallel", "c01", "^TestParallel$", engine="sched", checks=(400, 8000), shards=(2, 16), tests=["parallel"], replay_attempts=5),
+        Leg("parallel-race", "c01", "^TestParallel$", engine="sched", race=True, checks=(100, 2000), shards=(2, 8), tests=["parallel"], replay_attempts=5),
+        Leg("first-use-race", "c01", "^TestParallel$", engine="sched", race=True, checks=(2, 2), shards=(12, 64), env={"VERIF_FIRST_USE": "1"}, tests=["parallel"], replay_attempts=5),
         Leg("fuzz-buffer", "c01", "", engine="native-fuzz", fuzz="FuzzBuffer", fuzztime=150, tiers=("thorough",)),
     ],
 }
@@ -134,6 +140,7 @@ PROPS["C02"] = {
         Leg("stream", "c02", "^TestStream$", checks=(3000, 120000), shards=(2, 16), tests=["stream"]),
         Leg("parallel", "c02", "^TestParallel$", engine="sched", checks=(400, 8000), shards=(2, 16), tests=["parallel"], replay_attempts=5),
         Leg("parallel-race", "c02", "^TestParallel$", engine="sched", race=True, checks=(100, 2000), shards=(2, 8), tests=["parallel"], replay_attempts=5),
+        Leg("first-use-race", "c02", "^TestParallel$", engine="sched", race=True, checks=(2, 2), shards=(12, 64), env={"VERIF_FIRST_USE": "1"}, tests=["parallel"], replay_attempts=5),
         Leg("long-silence", "c02", "^TestLongSilence$", engine="sched", checks=(1, 3), shards=(3, 6), tests=["long-silence"]),
         Leg("stream-race", "c02", "^TestStream$", race=True, checks=(600, 25000), shards=(2, 16), tests=["stream"]),
         Leg("stream-yield-race", "c02", "^TestStream$", engine="sched", race=True, instrument=["rtcm/handler/handler.go", "rtcm/pushback/byte_channel.go"],
@@ -199,6 +206,7 @@ PROPS["C20"] = {
         Leg("types-no-tzdata", "c20", "^TestTypes$", engine="enumerate", rapid=False, wrap="no-tzdata", env={"ZONEINFO": ""}, shards=(1, 1), tests=["types"]),
         Leg("parallel", "c20", "^TestParallel$", engine="sched", checks=(300, 5000), shards=(2, 16), tests=["parallel"], replay_attempts=5),
         Leg("parallel-race", "c20", "^TestParallel$", engine="sched", race=True, checks=(100, 1500), shards=(2, 8), tests=["parallel"], replay_attempts=5),
+        Leg("first-use-race", "c20", "^TestParallel$", engine="sched", race=True, checks=(2, 2), shards=(12, 64), env={"VERIF_FIRST_USE": "1"}, tests=["parallel"], replay_attempts=5),
     ],
 }
 
@@ -217,8 +225,10 @@ PROPS["C05"] = {
     "min_evals": {"quick": 20000, "thorough": 1000000},
     "legs": [
         Leg("message", "c05", "^TestMessage$", checks=(60000, 2000000), shards=(2, 16), tests=["message"]),
+        Leg("siblings", "c05", "^TestSiblings$", checks=(6000, 150000), shards=(2, 16), tests=["siblings"]),
         Leg("parallel", "c05", "^TestParallel$", engine="sched", checks=(1500, 30000), shards=(2, 16), tests=["parallel"], replay_attempts=5),
         Leg("parallel-race", "c05", "^TestParallel$", engine="sched", race=True, checks=(300, 5000), shards=(2, 8), tests=["parallel"], replay_attempts=5),
+        Leg("first-use-race", "c05", "^TestParallel$", engine="sched", race=True, checks=(2, 2), shards=(12, 64), env={"VERIF_FIRST_USE": "1"}, tests=["parallel"], replay_attempts=5),
         Leg("message-386", "c05", "^TestMessage$", goarch="386", checks=(20000, 300000), shards=(1, 8), tests=["message"]),
         Leg("fuzz-message", "c05", "", engine="native-fuzz", fuzz="FuzzMessage", fuzztime=120, tiers=("thorough",)),
     ],
@@ -238,8 +248,10 @@ PROPS["C04"] = {
     "min_evals": {"quick": 5000, "thorough": 300000},
     "legs": [
         Leg("message", "c04", "^TestMessage$", checks=(4000, 300000), shards=(2, 16), tests=["message"]),
+        Leg("siblings", "c04", "^TestSiblings$", checks=(2500, 60000), shards=(2, 16), tests=["siblings"]),
         Leg("parallel", "c04", "^TestParallel$", engine="sched", checks=(600, 10000), shards=(2, 16), tests=["parallel"], replay_attempts=5),
         Leg("parallel-race", "c04", "^TestParallel$", engine="sched", race=True, checks=(150, 3000), shards=(2, 8), tests=["parallel"], replay_attempts=5),
+        Leg("first-use-race", "c04", "^TestParallel$", engine="sched", race=True, checks=(2, 2), shards=(12, 64), env={"VERIF_FIRST_USE": "1"}, tests=["parallel"], replay_attempts=5),
         Leg("message-386", "c04", "^TestMessage$", goarch="386", checks=(1500, 40000), shards=(1, 8), tests=["message"]),
         Leg("fuzz-message", "c04", "", engine="native-fuzz", fuzz="FuzzMessage", fuzztime=150, tiers=("thorough",)),
     ],
@@ -262,6 +274,7 @@ PROPS["C08"] = {
         Leg("cell", "c08", "^TestCell$", checks=(60000, 2000000), shards=(2, 16), tests=["cell"]),
         Leg("parallel", "c08", "^TestParallel$", engine="sched", checks=(1500, 30000), shards=(2, 16), tests=["parallel"], replay_attempts=5),
         Leg("parallel-race", "c08", "^TestParallel$", engine="sched", race=True, checks=(300, 5000), shards=(2, 8), tests=["parallel"], replay_attempts=5),
+        Leg("first-use-race", "c08", "^TestParallel$", engine="sched", race=True, checks=(2, 2), shards=(12, 64), env={"VERIF_FIRST_USE": "1"}, tests=["parallel"], replay_attempts=5),
         Leg("cell-386", "c08", "^TestCell$", goarch="386", checks=(20000, 300000), shards=(1, 8), tests=["cell"]),
     ],
 }
@@ -286,6 +299,7 @@ PROPS["C06"] = {
         Leg("history", "c06", "^TestHistory$", checks=(2000, 150000), shards=(6, 18), tests=["history"], shard_env=[{"TZ": "UTC"}, {"TZ": "Europe/London"}, {"TZ": "America/New_York"}, {"TZ": "Asia/Kolkata"}, {"TZ": "Australia/Lord_Howe"}, {"TZ": "Europe/Moscow"}]),
         Leg("parallel", "c06", "^TestParallel$", engine="sched", checks=(400, 8000), shards=(2, 16), tests=["parallel"], replay_attempts=5),
         Leg("parallel-race", "c06", "^TestParallel$", engine="sched", race=True, checks=(100, 2000), shards=(2, 8), tests=["parallel"], replay_attempts=5),
+        Leg("first-use-race", "c06", "^TestParallel$", engine="sched", race=True, checks=(2, 2), shards=(12, 64), env={"VERIF_FIRST_USE": "1"}, tests=["parallel"], replay_attempts=5),
         Leg("history-386", "c06", "^TestHistory$", goarch="386", checks=(2000, 40000), shards=(1, 8), tests=["history"]),
         Leg("history-no-tzdata", "c06", "^TestHistory$", wrap="no-tzdata", tags="notzdata", env={"ZONEINFO": ""}, checks=(2000, 40000), shards=(1, 8), tests=["history"]),
     ],
@@ -308,6 +322,7 @@ PROPS["C17"] = {
         Leg("display-program", "c17", "^TestDisplayProgram$", engine="process", app=["displayrtcm3"], checks=(60, 2000), shards=(8, 16), tests=["display-program"]),
         Leg("parallel", "c17", "^TestParallel$", engine="sched", checks=(400, 8000), shards=(2, 16), tests=["parallel"], replay_attempts=5),
         Leg("parallel-race", "c17", "^TestParallel$", engine="sched", race=True, checks=(100, 2000), shards=(2, 8), tests=["parallel"], replay_attempts=5),
+        Leg("first-use-race", "c17", "^TestParallel$", engine="sched", race=True, checks=(2, 2), shards=(12, 64), env={"VERIF_FIRST_USE": "1"}, tests=["parallel"], replay_attempts=5),
         Leg("history-386", "c17", "^TestHistory$", goarch="386", checks=(2000, 40000), shards=(1, 8), tests=["history"]),
         Leg("history-no-tzdata", "c17", "^TestHistory$", wrap="no-tzdata", tags="notzdata", env={"ZONEINFO": ""}, checks=(2000, 40000), shards=(1, 8), tests=["history"]),
     ],
@@ -419,6 +434,7 @@ PROPS["C10"] = {
         Leg("filter", "c10", "^TestFilter$", checks=(120, 8000), shards=(4, 16), tests=["filter"]),
         Leg("long-stall", "c10", "^TestLongStall$", engine="sched", checks=(1, 3), shards=(2, 4), tests=["long-stall"]),
         Leg("midnight", "c10", "^TestMidnight$", engine="sched", checks=(1, 3), shards=(2, 4), tests=["midnight"], replay_attempts=2),
+        Leg("program", "c10", "^TestProgram$", engine="process", app=["rtcmfilter"], checks=(40, 1500), shards=(8, 16), tests=["program"]),
         Leg("filter-race", "c10", "^TestFilter$", engine="sched", race=True, checks=(60, 3000), shards=(2, 16), tests=["filter"]),
     ],
 }
